@@ -11,11 +11,21 @@ JS = [0.0, 0.001, 0.05, 1.0, 40.0]
 ROLES = ["manager", "feeder", "worker-main", "main", "tracker-main"]
 
 
+HOT = ["is_shutting_down", "process_result_item", "add_call_item_to_queue", "wait_result_broken_or_wakeup",
+       "weakref_cb", "flag_executor_shutting_down", "shutdown_workers", "join_executor_internals", "terminate_broken",
+       "submit", "shutdown", "_adjust_process_count", "_ensure_executor_running", "_resize", "_wait_job_completion",
+       "get_reusable_executor", "_on_queue_feeder_error", "_feed", "kill_workers", "run", "_python_exit",
+       "wait", "notify", "notify_all", "set", "clear"]
+
+
 def gen_knobs(rng, tier="quick", line=True, max_steps=60000):
     k = dict(stick=rng.choice(STICKS), p_time=rng.choice(P_TIMES), J=rng.choice(JS),
              line_q=0.0, bias={}, max_steps=max_steps)
     if line and rng.random() < 0.25:
         k["line_q"] = rng.choice([0.01, 0.05])
+    if line and rng.random() < 0.3:
+        # concentrate pre-emption on one or two functions of the protocol (swarm style)
+        k["hot"] = {f: rng.choice([0.15, 0.4]) for f in rng.sample(HOT, rng.randint(1, 2))}
     if rng.random() < 0.3:
         k["bias"] = {rng.choice(ROLES): rng.choice([0.1, 0.1, 5.0])}
     return k
@@ -156,6 +166,12 @@ def mgr_state(res):
             if i["flags"].shutdown and any(res.kernel.procs[pid].alive for pid in i["processes"]):
                 ctx.append("late-worker-in-finished-executor")
                 break
+    if getattr(res.sched, "spinning", None) and res.outcome == "livelock":
+        sp = []
+        for t in (res.sched.snapshot or []):
+            if t["tid"] in res.sched.spinning and t["what"] != "start":
+                sp.append("%s@%s" % (t["role"] if t["pid"] != 100 else "root-" + t["role"].rstrip("0123456789"), inner_loky(t["where"])))
+        blocked.append("spinning:" + "+".join(sorted(set(sp))))
     if getattr(res.sched, "livelock_pollers", None) and res.outcome == "livelock":
         pol = []
         for t in (res.sched.snapshot or []):
